@@ -58,7 +58,7 @@ func sortedStrict[T comparable](c *core.Ctx, tname string, gen func(*core.Rand) 
 		input = []T{}
 	default:
 		k := r.Range(1, 40)
-		if r.Chance(1, 25) {
+		if r.Chance(1, 12) {
 			k = r.Range(200, 3000) // far beyond any small-size fast path
 			c.Count("input_big", 1)
 		}
@@ -207,10 +207,30 @@ func sortedStrict[T comparable](c *core.Ctx, tname string, gen func(*core.Rand) 
 	if len(model) >= 100 && r.Bool() {
 		// a burst of removals from the front half of a big slice (pop-min style)
 		burst := r.Range(60, len(model)-20)
+		drain := r.Chance(1, 3)
+		backToFront := r.Bool()
+		if drain {
+			// drained completely (then used again below): whatever a big slice releases or
+			// resets when it runs empty must leave a working Sorted behind
+			burst = len(model)
+			c.Count("big_slice_drained_to_empty_then_reused", 1)
+		}
 		for i := 0; i < burst && len(model) > 0; i++ {
 			pos := r.Intn(len(model)/2 + 1)
 			if r.Chance(2, 3) {
 				pos = 0
+			}
+			if drain && backToFront {
+				pos = len(model) - 1 - r.Intn(len(model)/8+1)
+			}
+			if drain && r.Chance(1, 3) {
+				hist = append(hist, fmt.Sprintf("burst:RemoveAt(%d)", pos))
+				if p, pv := core.Catch(func() { s.RemoveAt(pos) }); p {
+					fail("RemoveAt:panic", fmt.Sprintf("RemoveAt(%d) with Len %d panicked: %v", pos, len(model), pv))
+					return
+				}
+				model = append(model[:pos:pos], model[pos+1:]...)
+				continue
 			}
 			v := model[pos]
 			hist = append(hist, fmt.Sprintf("burst:Remove(%v)", v))
